@@ -76,7 +76,11 @@ func FindTimeRangeBucket(r *Range, timestamp uint64) uint64 {
 		return r.start
 	}
 	if timestamp >= r.end {
-		return r.end - r.step
+		// end is exclusive: use the last bucket that starts before it
+		if r.end <= r.start {
+			return r.start
+		}
+		timestamp = r.end - 1
 	}
 
 	index := ((timestamp - r.start) / r.step)
